@@ -21,7 +21,11 @@ func H_C17_reject() {
 	ctx, cancel := context.WithCancel(context.Background())
 	defer cancel()
 	p := NewProxy(ctx, "proxy", dial, nil, nil)
-	names := []string{"p0", "p1"}
+	attach := "p0"
+	if vfParam("unnamed", 0) == 1 {
+		attach = "" // a peer attached under the empty name
+	}
+	names := []string{attach, "p1"}
 	var clients []*proxyClient
 	for _, n := range names {
 		c := &proxyClient{id: n, toServer: p.commands, fromServer: make(chan *goatorepo.Rpc, clientBufferSize)}
@@ -35,12 +39,15 @@ func H_C17_reject() {
 		rpc = &goatorepo.Rpc{Id: 1, Body: &goatorepo.Body{}}
 	case 1:
 		src := vfString("src", 2)
-		spoofed = src != "p0"
+		spoofed = src != attach
 		rpc = &goatorepo.Rpc{Id: 1, Header: &goatorepo.RequestHeader{Method: "/s/m", Source: src, Destination: "p1"}}
 	default:
 		rpc = &goatorepo.Rpc{Id: 1, Header: &goatorepo.RequestHeader{Method: "/s/m", Source: "", Destination: "p1"}}
 	}
-	p.forwardRpc("p0", rpc)
+	if kind == 2 && attach == "" {
+		spoofed = false // an empty source is what an unnamed peer honestly claims
+	}
+	p.forwardRpc(attach, rpc)
 	if spoofed {
 		vfAssert(len(clients[0].fromServer) == 0 && len(clients[1].fromServer) == 0, "spoofed-or-headerless-envelope-not-forwarded")
 		vfAssert(dialed == 0 && len(p.clients) == 2, "nobody-dialled")
